@@ -1,7 +1,10 @@
 // Replay driver for unit porcelain: the ORIGINAL parser statements of blame_hunks_for_ranges (region bh_parse) on synthetic
 // `git blame --line-porcelain` output assembled from groups, so the expected hunks are known by construction.  Content and
-// summary lines are drawn from texts that look like headers or metadata.
+// summary lines are drawn from texts that look like headers or metadata.  Each group carries a `filename` line (plain, C-quoted, or
+// none): the hunk's `filename` must be that path unquoted (the path the file had in the originating commit).
 #![allow(dead_code, unused)]
+/// the region names the helper by its crate path; the ORIGINAL unescape_git_path (src/utils.rs) is spliced in at the crate root
+pub mod utils { pub fn unescape_git_path(p: &str) -> String { super::unescape_git_path(p) } }
 include!("@ITEMS@");
 use std::panic::{catch_unwind, AssertUnwindSafe};
 struct Ctx { evaluated: u64, failed: std::collections::HashSet<String> }
@@ -17,10 +20,13 @@ struct Rng(u64);
 impl Rng { fn next(&mut self) -> u64 { self.0 ^= self.0 << 13; self.0 ^= self.0 >> 7; self.0 ^= self.0 << 17; self.0 } fn below(&mut self, n: u64) -> u64 { self.next() % n } }
 const SHAS: &[&str] = &["0123456789abcdef0123456789abcdef01234567", "89abcdef0123456789abcdef0123456789abcdef", "aaaaaaaaaaaaaaaaaaaaaaaaaaaaaaaaaaaaaaaa"];
 const TEXTS: &[&str] = &["plain", "", "0123456789abcdef0123456789abcdef01234567 1 1 1", "deadbeef 2 2", "author Mallory", "boundary", "committer-time 1", "\tindented", "  spaced", "abc 1 2 3 4", "ünï 日本", "filename x"];
+/// the `filename` line of a group as git prints it (C-quoted when the path has special characters; "" = git prints none) and the
+/// path it stands for (the path the file had in the originating commit)
+const FILES: &[(&str, &str)] = &[("src/file name.rs", "src/file name.rs"), ("old/plain.rs", "old/plain.rs"), ("\"tab\\there.rs\"", "tab\there.rs"), ("\"\\344\\270\\255.txt\"", "\u{4e2d}.txt"), ("", ""), ("\"q\\\"uote.rs\"", "q\"uote.rs")];
 const AUTHORS: &[&str] = &["Alice", "Bob Builder", "deadbeef 1 2 3"];
 /// group: sha index, orig start, final start, size, author index, boundary, content/summary text indices (one per line)
 #[derive(Clone, Debug)]
-struct G { sha: usize, orig: u32, fin: u32, n: u32, author: usize, boundary: bool, texts: Vec<usize> }
+struct G { sha: usize, orig: u32, fin: u32, n: u32, author: usize, boundary: bool, texts: Vec<usize>, file: usize }
 fn render(gs: &[G], crlf: bool) -> String {
     let mut out: Vec<String> = vec![];
     for g in gs { for i in 0..g.n {
@@ -31,15 +37,15 @@ fn render(gs: &[G], crlf: bool) -> String {
         out.push(format!("summary {}", TEXTS[g.texts[i as usize]]));
         if g.boundary { out.push("boundary".into()); }
         if i % 2 == 1 { out.push(format!("previous {} old name.txt", SHAS[(g.sha + 1) % SHAS.len()])); }
-        out.push("filename src/file name.rs".into());
+        if !FILES[g.file].0.is_empty() { out.push(format!("filename {}", FILES[g.file].0)); }
         out.push(format!("\t{}", TEXTS[g.texts[i as usize]]));
     } }
     out.join(if crlf { "\r\n" } else { "\n" }) + "\n"
 }
-fn enc(gs: &[G], crlf: bool) -> String { format!("{}#{}", crlf as u8, gs.iter().map(|g| format!("{}:{}:{}:{}:{}:{}:{}", g.sha, g.orig, g.fin, g.n, g.author, g.boundary as u8, g.texts.iter().map(|t| t.to_string()).collect::<Vec<_>>().join(","))).collect::<Vec<_>>().join("|")) }
+fn enc(gs: &[G], crlf: bool) -> String { format!("{}#{}", crlf as u8, gs.iter().map(|g| format!("{}:{}:{}:{}:{}:{}:{}:{}", g.sha, g.orig, g.fin, g.n, g.author, g.boundary as u8, g.texts.iter().map(|t| t.to_string()).collect::<Vec<_>>().join(","), g.file)).collect::<Vec<_>>().join("|")) }
 fn dec(s: &str) -> (Vec<G>, bool) {
     let (c, r) = s.split_once('#').unwrap();
-    (r.split('|').filter(|x| !x.is_empty()).map(|x| { let q: Vec<&str> = x.split(':').collect(); G { sha: q[0].parse().unwrap(), orig: q[1].parse().unwrap(), fin: q[2].parse().unwrap(), n: q[3].parse().unwrap(), author: q[4].parse().unwrap(), boundary: q[5] == "1", texts: q[6].split(',').filter(|t| !t.is_empty()).map(|t| t.parse().unwrap()).collect() } }).collect(), c == "1")
+    (r.split('|').filter(|x| !x.is_empty()).map(|x| { let q: Vec<&str> = x.split(':').collect(); G { sha: q[0].parse().unwrap(), orig: q[1].parse().unwrap(), fin: q[2].parse().unwrap(), n: q[3].parse().unwrap(), author: q[4].parse().unwrap(), boundary: q[5] == "1", texts: q[6].split(',').filter(|t| !t.is_empty()).map(|t| t.parse().unwrap()).collect(), file: q.get(7).map(|f| f.parse().unwrap()).unwrap_or(0) } }).collect(), c == "1")
 }
 fn chk(c: &mut Ctx, gs: &[G], crlf: bool) {
     c.evaluated += 1;
@@ -48,15 +54,15 @@ fn chk(c: &mut Ctx, gs: &[G], crlf: bool) {
     match guarded(move || region_bh_parse(text)) {
         Err(p) => c.fail("region_bh_parse", "safety", input, p, "no panic".into()),
         Ok(hs) => {
-            let got: Vec<(String, (u32, u32), (u32, u32), String, bool)> = hs.iter().map(|h| (h.commit_sha.clone(), h.range, h.orig_range, h.original_author.clone(), h.is_boundary)).collect();
-            let want: Vec<(String, (u32, u32), (u32, u32), String, bool)> = gs.iter().map(|g| (SHAS[g.sha].to_string(), (g.fin, g.fin + g.n - 1), (g.orig, g.orig + g.n - 1), AUTHORS[g.author].to_string(), g.boundary)).collect();
+            let got: Vec<(String, (u32, u32), (u32, u32), String, bool, String)> = hs.iter().map(|h| (h.commit_sha.clone(), h.range, h.orig_range, h.original_author.clone(), h.is_boundary, h.filename.clone())).collect();
+            let want: Vec<(String, (u32, u32), (u32, u32), String, bool, String)> = gs.iter().map(|g| (SHAS[g.sha].to_string(), (g.fin, g.fin + g.n - 1), (g.orig, g.orig + g.n - 1), AUTHORS[g.author].to_string(), g.boundary, FILES[g.file].1.to_string())).collect();
             if got != want { c.fail("theorem_one_hunk_per_group", "one_hunk_per_group", input, format!("{:?}", got), format!("{:?}", want)); }
         }
     }
 }
 fn gen_groups(g: &mut Rng) -> Vec<G> {
     let mut fin = 1u32;
-    (0..g.below(4)).map(|_| { let n = 1 + g.below(3) as u32; let f = fin; fin += n; G { sha: g.below(SHAS.len() as u64) as usize, orig: 1 + g.below(50) as u32, fin: f, n, author: g.below(AUTHORS.len() as u64) as usize, boundary: g.below(5) == 0, texts: (0..n).map(|_| g.below(TEXTS.len() as u64) as usize).collect() } }).collect()
+    (0..g.below(4)).map(|_| { let n = 1 + g.below(3) as u32; let f = fin; fin += n; G { sha: g.below(SHAS.len() as u64) as usize, orig: 1 + g.below(50) as u32, fin: f, n, author: g.below(AUTHORS.len() as u64) as usize, boundary: g.below(5) == 0, texts: (0..n).map(|_| g.below(TEXTS.len() as u64) as usize).collect(), file: g.below(FILES.len() as u64) as usize } }).collect()
 }
 fn main() {
     std::panic::set_hook(Box::new(|_| {}));
@@ -65,7 +71,7 @@ fn main() {
     if a[1] == "search" {
         // every tricky text as content and summary of the first line of a two-line group, followed by a second group
         for t in 0..TEXTS.len() { for au in 0..AUTHORS.len() {
-            chk(&mut c, &[G { sha: 0, orig: 3, fin: 1, n: 2, author: au, boundary: false, texts: vec![t, 0] }, G { sha: 1, orig: 9, fin: 3, n: 1, author: 0, boundary: t % 2 == 0, texts: vec![t] }], false);
+            chk(&mut c, &[G { sha: 0, orig: 3, fin: 1, n: 2, author: au, boundary: false, texts: vec![t, 0], file: t % FILES.len() }, G { sha: 1, orig: 9, fin: 3, n: 1, author: 0, boundary: t % 2 == 0, texts: vec![t], file: (t + au + 1) % FILES.len() }], false);
         } }
         chk(&mut c, &[], false);
         let mut g = Rng(a[3].parse::<u64>().unwrap_or(0).wrapping_mul(0x9E3779B97F4A7C15) | 1);
